@@ -1,5 +1,27 @@
-/- C03 property theorems (under construction) -/
-import Stgutg.Model.AperDec
+/-
+  C03 — NGAP messages are encoded exactly as X.691 aligned PER / TS 38.413 prescribe.
+  Model: Stgutg.Model.AperEnc (marshal.go) over the regenerated schema; specification: Stgutg.Spec.X691
+  (written from the Recommendation) under the constraints of Stgutg.Spec.Ts38413Leaf (written from TS 38.413).
+-/
+import Stgutg.Model.AperEnc
+import Stgutg.Spec.X691
+import Stgutg.Spec.Ts38413Leaf
 import Stgutg.Gen.NgapSchema
+
 namespace Stgutg.Props.C03
+open Stgutg Stgutg.Aper
+
+set_option maxRecDepth 1000000 in
+/-- Table fact, re-decided on every run: each of the simple types and list types tabled by hand from TS 38.413
+    clause 9.4.5 occurs in the schema as a one-field wrapper (all 150 + 32 are found: struct names are unique,
+    table names are distinct), and its struct tag carries exactly the standard's PER-visible constraint
+    (optional/extension flags, size and value bounds, open-type attributes). -/
+theorem tags_are_ts38413 :
+    Spec.Ts38413.checkTable Gen.Ngap.schema =
+      (Spec.Ts38413.leafTable.length + Spec.Ts38413.listTable.length, true) := by decide +kernel
+
+/-- the table names are pairwise distinct -/
+theorem table_names_distinct :
+    (Spec.Ts38413.leafTable.map (·.1)).Nodup ∧ (Spec.Ts38413.listTable.map (·.1)).Nodup := by decide +kernel
+
 end Stgutg.Props.C03
